@@ -1,4 +1,6 @@
 mod checks_crash;
+mod checks_http;
+mod httpx;
 mod checks_outage;
 mod checks_pure;
 mod checks_s;
@@ -49,6 +51,8 @@ fn main() {
         "C10" => checks_s::c10(a.tier),
         "C11" => checks_s::c11(a.tier),
         "C12" => checks_outage::c12(a.tier),
+        "C15" => checks_http::c15(a.tier),
+        "C16" => checks_http::c16(a.tier),
         "C17" => checks_pure::c17(a.tier),
         "C18" => checks_w::c18(a.tier),
         "C19" => checks_pure::c19(a.tier),
